@@ -532,6 +532,8 @@ def c19_e(ctx):
                 a = node.args[0]
                 inner = a
                 selected = False
+                batchy = False
+                hops = 0
                 while True:
                     if isinstance(inner, ast.Subscript):
                         # an integer index selects an element; a string key only picks a node
@@ -553,20 +555,20 @@ def c19_e(ctx):
                         selected = True
                         inner = inner.func.value
                         continue
+                    if isinstance(inner, ast.Name) and hops < 4:
+                        # a local bound once: continue with its definition
+                        defs = [k for k in ast.walk(f.node)
+                                if isinstance(k, ast.Assign) and len(k.targets) == 1 and
+                                isinstance(k.targets[0], ast.Name) and
+                                k.targets[0].id == inner.id]
+                        if len(defs) == 1:
+                            inner = defs[0].value
+                            hops += 1
+                            continue
                     break
-                batchy = False
                 if isinstance(inner, ast.Call) and isinstance(inner.func, ast.Attribute) and \
                         inner.func.attr in batch_apis:
                     batchy = True
-                if isinstance(inner, ast.Name):
-                    # a local bound to the result of a batch API
-                    ex = ctx.ex(f) if f.node is not None else None
-                    for k in ast.walk(f.node):
-                        if isinstance(k, ast.Assign) and isinstance(k.targets[0], ast.Name) and \
-                                k.targets[0].id == inner.id and isinstance(k.value, ast.Call) and \
-                                isinstance(k.value.func, ast.Attribute) and \
-                                k.value.func.attr in batch_apis:
-                            batchy = True
                 if not batchy:
                     continue
                 n += 1
